@@ -1,5 +1,6 @@
 // ---- prelude of unit `dom`
 use std::collections::HashSet;
+use std::marker::PhantomData;
 use vstd::std_specs::iter::IteratorSpec;
 broadcast use vstd::std_specs::hash::group_hash_axioms;
 
